@@ -2,6 +2,9 @@
 //! through RefSlice / ArcSlice / Option / ()) on bitmaps of boundary geometries.
 //!
 //! case:  mode byte_size page_size  op*      op = [code, slot, args...]
+//!   mode = build mode + 2 * constructor of the first bitmap: 0 AtomicBitmap::new(byte_size, page_size),
+//!   1 <AtomicBitmap as NewBitmap>::with_len(byte_size) (page_size must be the host page, 4096),
+//!   2 AtomicBitmap::default() (byte_size 0, page_size 4096; the history grows it with enlarge)
 //!   0 set_addr_range s a l   1 reset_addr_range s a l   2 set_bit s i   3 reset_bit s i
 //!   4 enlarge s add          5 clone s (appends a slot) 6 get_and_reset s   7 reset s
 //!   8 mark_dirty  s route off len chain...   9 dirty_at s route off chain...
@@ -142,7 +145,21 @@ fn exec_inner(case: &[Tok]) -> Vec<Tok> {
     let ps = case[2].u() as usize;
     let psz = NonZeroUsize::new(ps).expect("page size 0");
     assert!((bytes as u128) / (ps as u128) < PAGE_CAP, "case too large");
-    let mut slots: Vec<Arc<AtomicBitmap>> = vec![Arc::new(AtomicBitmap::new(bytes, psz))];
+    let first = match case[0].u() / 2 {
+        0 => AtomicBitmap::new(bytes, psz),
+        1 => {
+            // the bitmap of the crate's default constructors: one bit per HOST page
+            let host = unsafe { libc::sysconf(libc::_SC_PAGE_SIZE) };
+            assert!(host == 4096 && ps == 4096, "with_len: the model assumes a 4096-byte host page");
+            <AtomicBitmap as vm_memory::bitmap::NewBitmap>::with_len(bytes)
+        }
+        2 => {
+            assert!(ps == 4096 && bytes == 0, "default(): new(0, 0x1000)");
+            AtomicBitmap::default()
+        }
+        _ => panic!("no such constructor"),
+    };
+    let mut slots: Vec<Arc<AtomicBitmap>> = vec![Arc::new(first)];
     let mut out = Vec::new();
     state(&slots, ps, vec![0], &mut out);
     for t in &case[3..] {
@@ -497,7 +514,61 @@ fn random_op(rng: &mut Rng, h: &mut Hist) {
     }
 }
 
+/// the constructors with the implicit page size: with_len(bytes) for sizes that are and are NOT multiples of the
+/// host page, default() followed by enlarge; directed marks around the last (partial) page + random histories
+fn gen_ctors(rng: &mut Rng, tier: Tier, emit: &mut dyn FnMut(Vec<Tok>)) {
+    let mode = crate::build_mode();
+    const P: usize = 4096;
+    let mut sizes: Vec<usize> = vec![0, 1, 2, P - 1, P, P + 1, P + P / 2, 2 * P - 1, 2 * P, 3 * P + 7, 63 * P + 1, 64 * P - 1, 64 * P, 64 * P + 1, 65 * P + 100, 128 * P + 1];
+    for _ in 0..(if tier == Tier::Quick { 12 } else { 60 }) {
+        sizes.push(rng.below(70 * P as u64) as usize);
+        sizes.push((rng.below(130) as usize) * P + rng.below(P as u64) as usize);
+    }
+    for &bytes in &sizes {
+        for ctor in [1u64, 2] {
+            let pages = pages_of(bytes, P);
+            let mut h = Hist { bytes: vec![if ctor == 1 { bytes } else { 0 }], ps: P, ops: vec![] };
+            if ctor == 2 {
+                // default() is empty: grow it to `bytes` in one or two steps
+                let k1 = if bytes > 0 { rng.below(bytes as u64 + 1) as usize } else { 0 };
+                h.op(&[4, 0, k1]);
+                h.op(&[4, 0, bytes - k1]);
+                h.bytes[0] = bytes;
+            }
+            // the last byte, the byte after it, the last page boundary
+            for a in [bytes.saturating_sub(1), bytes, (bytes / P) * P, ((bytes / P) * P).saturating_sub(1), bytes.saturating_sub(P / 2)] {
+                h.op(&[0, 0, a, 1]);
+                h.op(&[10, 0, a]);
+                h.op(&[9, 0, 0, a]);
+            }
+            h.op(&[11, 0, pages.saturating_sub(1)]);
+            h.op(&[11, 0, pages]);
+            h.op(&[6, 0]);
+            h.op(&[0, 0, 0, usize::MAX]);
+            h.op(&[6, 0]);
+            let mut c = vec![n(mode as u64 + 2 * ctor), us(if ctor == 1 { bytes } else { 0 }), us(P)];
+            c.extend(std::mem::take(&mut h.ops));
+            emit(c);
+            let nh = if tier == Tier::Quick { 2 } else { 10 };
+            for _ in 0..nh {
+                let mut h = Hist { bytes: vec![if ctor == 1 { bytes } else { 0 }], ps: P, ops: vec![] };
+                if ctor == 2 && rng.chance(3, 4) {
+                    h.op(&[4, 0, bytes]);
+                    h.bytes[0] = bytes;
+                }
+                for _ in 0..rng.range(1, if pages > 64 { 10 } else { 24 }) {
+                    random_op(rng, &mut h);
+                }
+                let mut c = vec![n(mode as u64 + 2 * ctor), us(if ctor == 1 { bytes } else { 0 }), us(P)];
+                c.extend(h.ops);
+                emit(c);
+            }
+        }
+    }
+}
+
 fn gen(rng: &mut Rng, tier: Tier, emit: &mut dyn FnMut(Vec<Tok>)) {
+    gen_ctors(rng, tier, emit);
     let mode = crate::build_mode();
     let geos = geometries(rng, tier);
     let mut send = |bytes: usize, ps: usize, ops: Vec<Tok>| {
